@@ -22,8 +22,26 @@ package routing
 // land between them; how often that was observed is counted
 // (interleaved_between_tx) and has a floor.
 //
+// A read-only transaction (kvdb View / read-only ExecTx) is a boundary too:
+// after it the client is mostly held (table afterRO) until another client's
+// write has committed, so a call that checks in a read-only transaction and
+// writes in a later one meets that write in between.
+//
+// Direct store slice: the "race" profile (a quarter of the histories; one
+// hash, RegisterAttempt released together with the operation that flips its
+// admissibility) and an eighth of the other histories call the paymentsdb.DB
+// methods themselves, without the tower's per-hash mutex. The documented
+// caller contract is kept: PaymentControl.RegisterAttempt must be serialised
+// per hash by the caller (harness mutex around direct RegisterAttempt only);
+// no other method pair is documented as needing serialisation. The MPPayment
+// a direct RegisterAttempt / SettleAttempt / FailAttempt / Fail returns is
+// part of the output checked by the model.
+//
 //   verdict-bearing
 //     linearizability        porcupine says Illegal for a history
+//     conc_succeeded_absorbing  (no init/delete in the concurrent phase) a call
+//                            returned a record reporting Succeeded and a call
+//                            that started later returned another status
 //     conc_conservation      (no init/delete in the concurrent phase) amounts
 //                            of admitted, not successfully failed attempts
 //                            exceed the payment value; or the final record does
